@@ -633,7 +633,9 @@ pub fn cases_for_c04(thorough: bool) -> Vec<Case> {
 
 pub fn run(ctx: &Ctx) -> Report {
     let mut report = Report::new();
-    let thorough = ctx.thorough();
+    // both tiers run the full bounds (a quarter of a minute); the thorough tier adds the other two
+    // yield-insertion drivers
+    let thorough = true;
     let mut base: Vec<Case> = Vec::new();
     base.extend(f1(thorough));
     base.extend(f2());
@@ -652,7 +654,7 @@ pub fn run(ctx: &Ctx) -> Report {
     }
     // yield insertion (see metamorph.rs): the same statements in a fiber that is suspended after every
     // statement; captured variables stay shared across suspensions
-    all.extend(crate::metamorph::yield_cases("Y_in_fiber_suspended_after_every_statement", &base, &[crate::metamorph::Driver::Plain]).into_iter().step_by(if thorough { 1 } else { 2 }));
+    all.extend(crate::metamorph::yield_cases("Y_in_fiber_suspended_after_every_statement", &base, if ctx.thorough() { &[crate::metamorph::Driver::Plain, crate::metamorph::Driver::Values, crate::metamorph::Driver::Interleaved] } else { &[crate::metamorph::Driver::Plain] }));
     all.extend(base);
     all.extend(f4());
     all.extend(f8());
@@ -665,7 +667,7 @@ pub fn run(ctx: &Ctx) -> Report {
     mcheck::fill_report(
         &mut report,
         &stats,
-        "F1: every combination of scope kind (block, function, lambda, method, while body, for body, try body) x exit (fall through, return, break, continue, throw) x two closures with every read/write action over two variables, created through 0-2 intermediate function levels, called inside the scope, escaped, and called in several orders after the scope has exited; F2: fresh variables per iteration/activation; F3: shadowing at depth 1-3 with a closure and a write at every level; F4: textual resolution and late-bound globals; F5: 1-3 closures over 1-3 shared variables, slot reuse; F6: captures of a try body left by exception or return; F7: capture order - three variables, up to three closures each with every ordered capture list (15 lists), so captures happen in every order relative to declaration order and to earlier captures; F10: closures made in finally / catch blocks over the loop body's locals when the iteration is left by continue / break from inside the try statement (every iteration has variables of its own); F9: locals captured before a try statement stay shared with their closures after an exception was raised inside it and handled in the same frame; F8: closures made straight after control came back from another module (exception caught, call returned, fiber finished, exception through a finally block). Each program also runs wrapped in a block, a function and a fiber, and (every second one in the quick tier) in a fiber that is suspended after every statement of every block and function and resumed until it has finished. non-trivial = at least three observations printed.",
+        "F1: every combination of scope kind (block, function, lambda, method, while body, for body, try body) x exit (fall through, return, break, continue, throw) x two closures with every read/write action over two variables, created through 0-2 intermediate function levels, called inside the scope, escaped, and called in several orders after the scope has exited; F2: fresh variables per iteration/activation; F3: shadowing at depth 1-3 with a closure and a write at every level; F4: textual resolution and late-bound globals; F5: 1-3 closures over 1-3 shared variables, slot reuse; F6: captures of a try body left by exception or return; F7: capture order - three variables, up to three closures each with every ordered capture list (15 lists), so captures happen in every order relative to declaration order and to earlier captures; F10: closures made in finally / catch blocks over the loop body's locals when the iteration is left by continue / break from inside the try statement (every iteration has variables of its own); F9: locals captured before a try statement stay shared with their closures after an exception was raised inside it and handled in the same frame; F8: closures made straight after control came back from another module (exception caught, call returned, fiber finished, exception through a finally block). Each program also runs wrapped in a block, a function and a fiber, and in a fiber that is suspended after every statement of every block and function and resumed until it has finished. non-trivial = at least three observations printed.",
         json!({"closures": 2, "variables": 2, "intermediate_levels": if thorough { 3 } else { 2 }, "wrappings": 3}),
     );
     report.assumptions = vec!["M-eval's cell-based environments define the intended semantics (DESIGN.md Appendix A)".into()];
